@@ -212,6 +212,17 @@ Theorem C02_uncarriable_names_refused :
 Proof. intros C W sem registry. exact (uncarriable_names_refused sem registry). Qed.
 Print Assumptions C02_uncarriable_names_refused.
 
+(* likewise a first record that validation refuses (Strict) leaves the
+   scheme-less writer as it was: no scheme adopted, no column line written
+   (repaired code, 68d0e15) *)
+Theorem C02_invalid_first_record_leaves_writer_unchanged :
+  forall (C W : Type) (sem : colsem C W) (w : writer C) (r : mrec C W) lg e,
+    w_scheme w = None -> names_writable (record_names r) = true ->
+    record_validate sem r (Some (w_mode w)) LgWriter true (Some (no_restrictions (record_names r))) = (lg, Raise e) ->
+    writer_iadd sem w r = (lg, w, Raise e).
+Proof. intros C W sem. exact (iadd_no_scheme_invalid sem). Qed.
+Print Assumptions C02_invalid_first_record_leaves_writer_unchanged.
+
 (* ... and what passes the writer's check is what the column line can carry *)
 Theorem C02_writable_names_are_carriable :
   forall names : list str, names_writable names = true -> carriable names.
